@@ -154,33 +154,43 @@ def _worker(args):
         j = (k * 7 + i)
         return [CONFIGS[(j) % 10], CONFIGS[(j + 3) % 10], CONFIGS[(j + 6) % 10]], [CONFIGS[(j + 5) % 10]]
 
-    @hseed(seed_value * 1000 + k)
-    @settings(max_examples=n, database=None, deadline=None, suppress_health_check=list(HealthCheck))
-    @given(schemagen.schemas(**gen_kw))
-    def prop(sch):
-        xml = schemagen.to_xml(sch)
-        h = common.text_hash(xml)
-        edir = os.path.join(wdir, "e_" + h)
-        if os.path.exists(os.path.join(edir, "entry.json")):
-            st = json.load(open(os.path.join(edir, "entry.json")))
-        else:
-            c, hc = cfgs(state["i"])
-            state["i"] += 1
-            st = build_entry(json.loads(json.dumps(sch)), edir, c, hc, sbeppc)
-            state["built"] += 1
-        if not st["ok"]:
-            state["last_fail"] = edir
-            raise AssertionError(st.get("signature"))
+    def make_prop(raise_on_failure):
+        @hseed(seed_value * 1000 + k)
+        @settings(max_examples=n, database=None, deadline=None, suppress_health_check=list(HealthCheck))
+        @given(schemagen.schemas(**gen_kw))
+        def prop(sch):
+            xml = schemagen.to_xml(sch)
+            h = common.text_hash(xml)
+            edir = os.path.join(wdir, "e_" + h)
+            if os.path.exists(os.path.join(edir, "entry.json")):
+                st = json.load(open(os.path.join(edir, "entry.json")))
+            else:
+                c, hc = cfgs(state["i"])
+                state["i"] += 1
+                st = build_entry(json.loads(json.dumps(sch)), edir, c, hc, sbeppc)
+                state["built"] += 1
+            if not st["ok"]:
+                state["last_fail"] = edir
+                state["nfail"] = state.get("nfail", 0) + 1
+                if raise_on_failure:
+                    raise AssertionError(st.get("signature"))
+        return prop
 
     t0 = time.time()
     failed = None
     try:
-        prop()
-    except AssertionError:
-        failed = state["last_fail"]   # Hypothesis re-runs the minimal example last
+        # pass 1 builds all n schemas whatever happens, so that a tree with a shallow defect still yields a full pool for the
+        # value-level checks (failing schemas are simply not part of it); pass 2 (same seed, cached entries) exists only to let
+        # Hypothesis shrink the first failing schema
+        make_prop(False)()
+        if state.get("nfail"):
+            try:
+                make_prop(True)()
+            except AssertionError:
+                failed = state["last_fail"]   # Hypothesis re-runs the minimal example last
     except Exception as ex:  # generator problems must not masquerade as violations
         return {"worker": k, "error": repr(ex), "built": state["built"]}
-    return {"worker": k, "failed": failed, "built": state["built"], "wall": time.time() - t0}
+    return {"worker": k, "failed": failed, "built": state["built"], "failing_schemas": state.get("nfail", 0), "wall": time.time() - t0}
 
 
 class Entry:
